@@ -160,6 +160,30 @@ def cases(tier, rng):
                                 for lazy in ((True, False) if big else (rng.choice([True, False]),)):
                                     yield {"op": "read", "fmt": fmt, "header": header, "ents": bad, "i": i, "kind": "multi", "viol": [[i, ka], [j, kb]],
                                            "k": k, "gz": gz, "lazy": lazy, "nl": rng.random() < 0.8}
+    # lazily read chunks joined before use (np.concatenate of all chunks but the first), and reading on after a reported error
+    for fmt, kind in (("bed6", "nonnum"), ("bed6", "strand"), ("bdg", "nonnum"), ("bed12", "tok:10:1,2x"), ("vcf", "nonnum")):
+        for n in ((4, 6) if big else (5,)):
+            ents, header = c01.make_entries(fmt, n, [2, 5], rng)
+            for i in range(n):
+                bad = _inject(fmt, ents, i, kind)
+                bounds = [sum(len(e) for e in bad[:t + 1]) for t in range(n)]
+                for k in (sorted(set([1] + bounds + [b + 1 for b in bounds])) if big else rng.sample(sorted(set([1] + [b + 1 for b in bounds])), 3)):
+                    for gz in ((False, True) if big else (rng.random() < 0.3,)):
+                        yield {"op": "read", "fmt": fmt, "header": header, "ents": bad, "i": i, "kind": kind, "k": k, "gz": gz, "lazy": True, "nl": True,
+                               "via": "concat_tail"}
+    # (delimited formats only: there the error of an eager chunk is raised after the reader has delivered the chunk, exactly where lazy
+    #  reading raises it on access, so "the same for lazy and eager" speaks about the later chunks too; a FASTA/FASTQ reader that raised
+    #  inside read_chunk has given up, reading on is outside the property)
+    for fmt, ka, kb in (("bed6", "nonnum", "strand"), ("bed6", "nonnum", "nonnum"), ("bdg", "nonnum", "nonnum"), ("bed12", "tok:10:1,2x", "nonnum")):
+        for n in ((4, 6) if big else (5,)):
+            ents, header = c01.make_entries(fmt, n, [2, 5], rng)
+            for i in range(n - 1):
+                for j in range(i + 1, n):
+                    bad = _inject(fmt, _inject(fmt, ents, i, ka), j, kb)
+                    bounds = [sum(len(e) for e in bad[:t + 1]) for t in range(n)]
+                    for k in (sorted(set(bounds + [b + 1 for b in bounds])) if big else rng.sample(sorted(set(b + 1 for b in bounds)), 2)):
+                        yield {"op": "read", "fmt": fmt, "header": header, "ents": bad, "i": i, "kind": "multi", "viol": [[i, ka], [j, kb]], "k": k,
+                               "gz": False, "lazy": False, "nl": True, "via": "read_on"}
     # the byte-level reader used directly, and bnp.count_entries (fixed 500000-byte chunks) on a file larger than one chunk
     for fmt, kinds in (("fastq", ["marker", "plus", "plus_del", "trunc:2"]), ("fasta2line", ["marker", "trunc:1"]), ("bed", ["ncols_more", "ncols_less"])):
         for n in (3, 5):
@@ -246,6 +270,27 @@ def impl(c):
         with bnp.open(path, buffer_type=bt, lazy=c["lazy"]) as f:
             if via == "whole":
                 return {"table": len(c01.table_rows(f.read()))}
+            if via == "concat_tail":
+                # lazily read chunks joined with np.concatenate before any field is looked at: the first chunk alone, then ALL the others as one table
+                chunks = list(f.read_chunks(min_chunk_size=c["k"]))
+                rows += len(c01.table_rows(chunks[0])) if chunks else 0
+                if len(chunks) > 1:
+                    rows += len(c01.table_rows(np.concatenate(chunks[1:]) if len(chunks) > 2 else chunks[1]))
+                return {"table": rows}
+            if via == "read_on":
+                # the caller catches the error of a chunk and keeps reading (read_chunk in a loop): every later report must still name a true line
+                lines = []
+                for _ in range(len(_text(c)) + 5):
+                    try:
+                        chunk = f.read_chunk(min_chunk_size=c["k"])
+                        if len(chunk) == 0:
+                            break
+                        rows += len(c01.table_rows(chunk))
+                    except FormatException as e:
+                        lines.append(int(e.line_number))
+                if not lines:
+                    return {"table": rows}
+                return {"err": "format", "line": lines[0], "later": lines[1:]}
             if c.get("defer"):
                 # lazy chunks are only looked at after the whole file was read, last chunk first: each must still
                 # report with its own offset (model: readLazy / accessLazy, theorem lazy_access_any_time)
@@ -257,9 +302,25 @@ def impl(c):
                 rows += len(c01.table_rows(chunk))
         return {"table": rows}
     except FormatException as e:
-        return {"err": "format", "line": int(e.line_number)}
+        return _fmt_err(e)
     except Exception as e:
         return {"err": "other:" + type(e).__name__}
+
+
+def _fmt_err(e):
+    """the observation of a FormatException: its line — which must survive the trips an exception makes (pickling: worker
+    processes; copy) unchanged"""
+    import copy
+    import pickle
+    line = int(e.line_number)
+    for how, f in (("pickle", lambda x: pickle.loads(pickle.dumps(x))), ("copy", copy.copy), ("deepcopy", copy.deepcopy)):
+        try:
+            other = getattr(f(e), "line_number", None)
+        except Exception as ex:
+            return {"err": "format", "line": line, "lost": how + ":" + type(ex).__name__}
+        if other is None or int(other) != line:
+            return {"err": "format", "line": line, "lost": how}
+    return {"err": "format", "line": line}
 
 
 def _custom_pair(c):
@@ -370,6 +431,13 @@ def agree(c, got, exp):
     if not isinstance(got, dict) or "err" not in got:
         return False
     if got["err"] == "format":
+        if "lost" in got:
+            return False        # the line number did not survive pickling / copying the exception
+        if got.get("later") and c.get("viol"):
+            n = LINES.get(c["fmt"], 1)
+            true_lines = {i * n + d for i, _ in c["viol"] for d in range(n)}
+            if any(l not in true_lines for l in got["later"]):
+                return False    # after a reported error the reader went on and named a line that holds no violation
         return exp["line_lo"] <= got["line"] <= exp["line_hi"]
     return True
 
@@ -381,6 +449,8 @@ def model_request(c):
         return None
     if c["op"] != "read":
         return c
+    if c.get("via") == "read_on":
+        return None        # reading on after an error: decided against the oracle (every reported line holds a violation)
     if c.get("via") == "count":
         return None        # 600 kB files: decided against the oracle (exact line known), the list-based Lean model is slow on them
     body = "".join(c["ents"])
@@ -424,6 +494,10 @@ def finding_key(c, got, exp):
     if c["kind"] == "multi" and c["fmt"] not in LINES and isinstance(got, dict) and got.get("err") == "format" \
             and got["line"] in [i for i, _ in c["viol"]]:
         return "multi:delimited-cross-column:later-violation-named"
+    if isinstance(got, dict) and "lost" in got:
+        return "exception:line-number-lost-by-" + got["lost"].split(":")[0]
+    if isinstance(got, dict) and got.get("later") and c.get("via") == "read_on":
+        return "read-on-after-error:later-line-wrong"
     if isinstance(got, dict) and "table" in got:
         if c["kind"].startswith("ncols"):
             return "ncols:mixed-in-one-chunk" if _chunk_mixed(c) else "ncols:chunk-local-uniform"
